@@ -92,6 +92,35 @@ func zzBuildGraph(n int) *zzGraph {
 	return g
 }
 
+// zzBuildGraphNoEdges: n parentless commits with symbolic timestamps.
+func zzBuildGraphNoEdges(n int) *zzGraph {
+	g := &zzGraph{n: n, edges: make([][]bool, n), commits: make([]*objects.Commit, n), sums: make([][]byte, n)}
+	native := !zzverif.UnderGosym()
+	if native {
+		g.db = objmock.NewStore()
+	}
+	for i := 0; i < n; i++ {
+		g.edges[i] = make([]bool, n)
+		ts := zzverif.Int64("t")
+		zzverif.Assume(ts >= 1000000000 && ts < 1000001000)
+		c := &objects.Commit{Table: make([]byte, 16), AuthorName: "a", AuthorEmail: "e", Message: fmt.Sprintf("c%d", i), Time: time.Unix(ts, 0)}
+		g.commits[i] = c
+		if native {
+			buf := bytes.NewBuffer(nil)
+			c.WriteTo(buf)
+			sum, err := objects.SaveCommit(g.db, buf.Bytes())
+			if err != nil {
+				panic(err)
+			}
+			g.sums[i] = sum
+		} else {
+			g.sums[i] = zzFakeSum(i)
+		}
+	}
+	zzG = g
+	return g
+}
+
 func (g *zzGraph) idx(sum []byte) int {
 	for i, s := range g.sums {
 		if bytes.Equal(s, sum) {
